@@ -189,7 +189,17 @@ def docs : Handler := fun args =>
       | f => Json.mergeObj (outJson f (failsYaml (fuelFor cfg) b cfg TPath.root)) (Json.mkObj [("loose", Json.bool (touchesIpam cfg))])
   go base ds false false
 
+/-- `ResetProcessor.Apply` with the given recorded paths (each a list of parts) on a tree -/
+def apply : Handler := fun args =>
+  let ps : List TPath := match getObj args "paths" with
+    | .arr a => a.toList.map fun p => match p with
+      | .arr parts => parts.toList.filterMap fun s => match s with | .str x => some x | _ => none
+      | _ => []
+    | _ => []
+  Json.mkObj [("ok", (CV.Reset.applyNull ps (getVal args "tree") TPath.root).toJson)]
+
 def handlers : List (String × Handler) := [
+  ("c04.apply", apply),
   ("c04.mergeSeq", mergeSeq), ("c04.unicity", unicity), ("c04.parseVolume", parseVolume),
   ("c04.pathNext", pathNext), ("c04.reset", reset), ("c04.docs", docs), ("c04.unicityLoop", unicityLoop)]
 
